@@ -79,7 +79,7 @@ rule(P, 'new', '*', VAL, ['C14', 'C03'])
 rule(P, 'get_next_token', '*', VAL, ['C03'])
 rule(P, 'parse_number', 'Ans', VAL, ['C14', 'C20', 'C12'])
 rule(P, 'parse_number', 'ExplicitFunction', VAL, ['C10', 'C12'])
-rule(P, 'parse_number', 'ExplicitFunction/*', VAL, ['C10'])
+rule(P, 'parse_number', 'ExplicitFunction/*', VAL, ['C10', 'C12'])      # C12: a function call starts / continues an implicit product
 for f in ('Min', 'Max', 'Avg', 'Med', 'Gcd', 'Lcm'):
     rule(P, 'parse_number', 'ExplicitFunction/' + f, VAL, ['C11'])
 for f in ('Mod', 'Pow'):
@@ -231,6 +231,10 @@ rule(T, 'next', "Some('@')", ['post', 'assert'], ['C14'])
 # ---- every refinement obligation of a parser is part of "Ok iff the text is an expression of the grammar" (C03) and of the
 # agreement argument (C15: the five parsers refine spec parsers generated from tables that are equal on shared entries)
 rule(P, '*', '*', VAL, ['C03', 'C15'])
+# C04 "the value is that of evaluating the tree so obtained": the operator arms of every evaluator
+for u in ('i64-ast', 'f64-ast', 'number-ast', 'decimal-ast', 'complex-ast'):
+    for a in ('Add', 'Subtract', 'Multiply', 'Divide', 'Modulo', 'Pow', 'Negative', 'Factorial', 'And', 'Or', 'LeftShift', 'RightShift'):
+        rule(u, 'eval', a, ['post', 'assert'], ['C04'])
 # a literal that two evaluators read differently (or that one of them rejects) breaks their agreement (C15)
 for arm in ("Some('0'..='9')", "Some('.')"):
     rule(T, 'next', arm, ['post', 'invariant', 'assert'], ['C15'])
